@@ -626,6 +626,11 @@ def fold_accumulator_loops(tree: ast.Module) -> int:
                     ast.copy_location(comp, st)
                     lst[i] = newcall
                     n += 1
+                elif isinstance(st, ast.Expr) and isinstance(st.value, ast.Call) and isinstance(st.value.func, ast.Attribute) and st.value.func.attr in ("extend", "update") \
+                        and len(st.value.args) == 1 and isinstance(st.value.args[0], ast.GeneratorExp) and not st.value.keywords:
+                    ge = st.value.args[0]  # x.extend(e for ...) is x.extend([e for ...])
+                    st.value.args[0] = ast.copy_location(ast.ListComp(elt=ge.elt, generators=ge.generators), ge)
+                    n += 1
                 elif isinstance(st, ast.AugAssign) and isinstance(st.op, ast.Add) and isinstance(st.value, ast.ListComp) and isinstance(st.target, (ast.Name, ast.Attribute)):
                     tgt = copy.deepcopy(st.target)
                     for x in ast.walk(tgt):
@@ -753,3 +758,111 @@ def inline_constants(trees: dict[str, ast.Module]) -> int:
     for tree in trees.values():
         ast.fix_missing_locations(tree)
     return n_repl
+
+
+# --------------------------------------------------------------------------------------------------------------------------
+# N5 single-use temporaries
+# --------------------------------------------------------------------------------------------------------------------------
+
+
+def inline_single_use_temps(tree: ast.Module) -> int:
+    """`t = V` directly followed by a statement whose header reads `t` exactly once - and `t` is bound and read nowhere else in the function -
+    is that statement with V written in place ("introduce / inline explaining variable").  The read must be evaluated exactly once and
+    unconditionally when the next statement starts (same test as for hoisting a call in N1)."""
+    total = 0
+    for fn in [n for n in ast.walk(tree) if isinstance(n, (ast.FunctionDef, ast.AsyncFunctionDef))]:
+        for _ in range(50):
+            stores: dict[str, int] = {}
+            loads: dict[str, list[ast.Name]] = {}
+            for n in ast.walk(fn):
+                if isinstance(n, ast.Name):
+                    if isinstance(n.ctx, ast.Load):
+                        loads.setdefault(n.id, []).append(n)
+                    else:
+                        stores[n.id] = stores.get(n.id, 0) + 1
+                elif isinstance(n, (ast.Global, ast.Nonlocal)):
+                    for nm in n.names:
+                        stores[nm] = stores.get(nm, 0) + 5
+                elif isinstance(n, ast.arg):
+                    stores[n.arg] = stores.get(n.arg, 0) + 5
+                elif isinstance(n, ast.ExceptHandler) and n.name:
+                    stores[n.name] = stores.get(n.name, 0) + 5
+            parents = _parents(fn)
+            done = False
+            for node in ast.walk(fn):
+                for lst in _stmt_lists(node):
+                    for i in range(len(lst) - 1):
+                        st = lst[i]
+                        if not (isinstance(st, ast.Assign) and len(st.targets) == 1 and isinstance(st.targets[0], ast.Name)):
+                            continue
+                        t = st.targets[0].id
+                        if stores.get(t) != 1 or len(loads.get(t, [])) != 1:
+                            continue
+                        if any(isinstance(x, (ast.NamedExpr, ast.Yield, ast.YieldFrom, ast.Await)) for x in ast.walk(st.value)):
+                            continue
+                        use = loads[t][0]
+                        hs = _hoistable_expr(use, parents)
+                        if hs is None or hs is not lst[i + 1]:
+                            continue
+                        nxt = lst[i + 1]
+                        val = st.value
+
+                        class Rep(ast.NodeTransformer):
+                            def visit(self, n):
+                                if n is use:
+                                    return val
+                                return super().visit(n)
+
+                        for fld in ("test", "iter", "value", "targets", "target", "exc", "cause", "msg", "items"):
+                            v = getattr(nxt, fld, None)
+                            if isinstance(v, ast.AST):
+                                setattr(nxt, fld, Rep().visit(v))
+                            elif isinstance(v, list):
+                                setattr(nxt, fld, [Rep().visit(x) if isinstance(x, ast.AST) else x for x in v])
+                        del lst[i]
+                        total += 1
+                        done = True
+                        break
+                    if done:
+                        break
+                if done:
+                    break
+            if not done:
+                break
+    ast.fix_missing_locations(tree)
+    return total
+
+
+def _hoistable_expr(node: ast.AST, parents: dict[int, ast.AST]) -> Optional[ast.stmt]:
+    """The innermost statement containing expression `node`, when `node` is evaluated exactly once and unconditionally as that statement
+    starts executing (header of a compound statement included, `while` tests and `with` items excluded); None otherwise."""
+    cur: ast.AST = node
+    while True:
+        par = parents.get(id(cur))
+        if par is None:
+            return None
+        if isinstance(par, ast.Lambda) or isinstance(par, _COMP):
+            return None
+        if isinstance(par, ast.comprehension):
+            gens = parents.get(id(par))
+            if not (isinstance(gens, _COMP) and gens.generators[0] is par and par.iter is cur):
+                return None
+            cur = gens
+            continue
+        if isinstance(par, ast.IfExp) and cur is not par.test:
+            return None
+        if isinstance(par, ast.BoolOp) and par.values[0] is not cur:
+            return None
+        if isinstance(par, (ast.withitem, ast.ExceptHandler)) or par.__class__.__name__ == "match_case":
+            return None
+        if isinstance(par, ast.stmt):
+            if isinstance(par, (ast.FunctionDef, ast.AsyncFunctionDef, ast.ClassDef, ast.While, ast.With, ast.AsyncWith, ast.Try)) or par.__class__.__name__ == "Match":
+                return None
+            if isinstance(par, ast.If) and cur is not par.test:
+                return None
+            if isinstance(par, (ast.For, ast.AsyncFor)) and cur is not par.iter:
+                return None
+            if isinstance(par, (ast.AugAssign,)) and cur is par.target:
+                return None
+            return par
+        cur = par
